@@ -418,9 +418,21 @@ Definition last_send_on_spec_visible (c : icase) : bool * bool :=     (* (holds,
   | _, _, _ => (true, false)
   end.
 
+(* "a negative n is rejected": a run that succeeded has executed every save statement, so none of
+   them may evaluate to a negative amount *)
+Definition negative_save (vs : env) (ss : list stmt) : bool :=
+  existsb (fun s => match s with
+                    | StSave _ sv _ => match ok_opt (eval_sent_amt vs sv) with Some (_, Some k) => k <? 0 | _ => false end
+                    | _ => false
+                    end) ss.
+
 Definition judge_C08 (c : icase) : bool * bool * bool :=
   let agree := agree_postings c in
-  let '(vis_ok, vis_app) := last_send_on_spec_visible c in
+  let '(vis_ok0, vis_app) := last_send_on_spec_visible c in
+  let vis_ok := vis_ok0 && match ic_obs c, model_env c with
+                           | ObsOk _ _ _ _, Some vs => negb (negative_save vs (p_stmts (ic_prog c)))
+                           | _, _ => true
+                           end in
   match ic_obs c, model_env c with
   | ObsOk ps _ _ _, Some vs =>
       match leading_saves vs (p_stmts (ic_prog c)), all_grants vs (p_stmts (ic_prog c)) with
@@ -453,7 +465,13 @@ Definition judge_C12 (c : icase) : bool * bool * bool :=
                | Some _, _ => false
                | None, _ => true
                end in
-  (agree, no_panic && typed && err_result_empty (ic_obs c) && fault, true).
+  (* "naming the actual cause": the first fault met when the statements are executed in order - what
+     the sequential semantics of the model (C09, C12_typed_error) reports for these inputs *)
+  let cause := match ic_fail c, ic_obs c, model_outcome c with
+               | None, ObsErr n _ _, Err e => String.eqb (err_name e) n
+               | _, _, _ => true
+               end in
+  (agree, no_panic && typed && err_result_empty (ic_obs c) && fault && cause, true).
 
 (* ======================= C09: sequential composition ======================= *)
 Record splitcase := mk_splitcase {
